@@ -1,81 +1,59 @@
 (* C15 - Cache keys identify argument values: equal key iff equal value.
    Only statements here; every proof is `exact <lemma>` into Proofs/.
-   Model: Model/PyVal.v (values, ==, <, hash, sorted), Model/ToHashable.v (to_hashable), guards and `supported`:
-   Model/ToHashableSpec.v. *)
+   Model: Model/PyVal.v (values, ==, hash, the canonical sort key, sorted), Model/ToHashable.v (to_hashable after the
+   repairs: object ndarrays, Counter zero counts, masked arrays, canonical sort key, DiskCache file names),
+   `supported` and the one remaining guard `no_pandas`: Model/ToHashableSpec.v.
+   py_same = "equal values of the same type" (leaves compared with Python's ==: 1 == True == 1.0), py_eq = Python's ==
+   on keys.  No guard about sortability, zero counts or masks is left: those findings were repaired in the code. *)
 From Verif Require Import Base.Prelude Model.PyVal Model.ToHashable Model.ToHashableSpec Corr.Run_C15.
 From Verif Require Import Proofs.ToHashableFacts Proofs.C15SpecFacts.
 
-(* ---- key_hashable: to_hashable returns a hashable key.
-   Full statement:  forall fp v k, supported v = true -> to_hashable fp v = Ok k -> py_hashable k = true.
-   It is FALSE for masked arrays with masked elements (known finding masked-array-key-unhashable): *)
-Theorem C15_key_hashable_refuted :
-  exists v k, supported v = true /\ to_hashable true v = Ok k /\ py_hashable k = false.
-Proof. exact key_hashable_refuted. Qed.
-Print Assumptions C15_key_hashable_refuted.
-
-(* proved for every well-formed value without masked elements (pandas values: not covered by the proofs) *)
-Theorem C15_key_hashable_partial : forall fp v k,
-  wf v = true -> unmasked v = true -> no_pandas v = true ->
-  to_hashable fp v = Ok k -> py_hashable k = true.
+(* ---- key_hashable: to_hashable returns a hashable key - FULL: every well-formed value, pandas included *)
+Theorem C15_key_hashable : forall fp v k,
+  wf v = true -> to_hashable fp v = Ok k -> py_hashable k = true.
 Proof. exact key_hashable. Qed.
-Print Assumptions C15_key_hashable_partial.
+Print Assumptions C15_key_hashable.
 
-Example C15_key_hashable_nontrivial :   (* {2: [1], 1: (5, {3})} satisfies the hypotheses *)
-  let v := PDict [(PInt 2, PList [PInt 1]); (PInt 1, PTuple [PInt 5; PSet [PInt 3]])] in
-  wf v = true /\ unmasked v = true /\ no_pandas v = true /\ exists k, to_hashable true v = Ok k.
-Proof. repeat split; try (vm_compute; reflexivity). eexists. vm_compute. reflexivity. Qed.
+Example C15_key_hashable_nontrivial :   (* {2: [1], 1: (5, {3, 'a', None}), None: masked array} *)
+  let v := PDict [(PInt 2, PList [PInt 1]); (PInt 1, PTuple [PInt 5; PSet [PInt 3; PStr (s "a"); PNone]]);
+                  (PNone, PSeq (KNd true (s "<i8") [2%Z]) [PInt 1; PA AMasked])] in
+  wf v = true /\ exists k, to_hashable true v = Ok k /\ py_hashable k = true.
+Proof. repeat split; try (vm_compute; reflexivity). eexists. split; vm_compute; reflexivity. Qed.
 
-(* ---- eq_implies_key_eq: equal values of the same type get equal keys (canonicity of sorted()).
-   Full statement:  forall fp v w k k', supported v = true -> supported w = true -> py_same v w = true ->
-                    to_hashable fp v = Ok k -> to_hashable fp w = Ok k' -> py_eq k k' = true.
-   FALSE: frozenset keys are only partially ordered by < (known finding sorted-partial-order-frozenset-keys),
-   Counter equality ignores zero counts (known finding counter-zero-count-distinct-keys): *)
-Theorem C15_eq_implies_key_eq_refuted_partial_order :
-  exists v w k k', supported v = true /\ supported w = true /\ py_same v w = true
-                   /\ to_hashable true v = Ok k /\ to_hashable true w = Ok k' /\ py_eq k k' = false.
-Proof. exact eq_implies_key_eq_refuted_partial_order. Qed.
-Print Assumptions C15_eq_implies_key_eq_refuted_partial_order.
-Theorem C15_eq_implies_key_eq_refuted_counter :
-  exists v w k k', supported v = true /\ supported w = true /\ py_same v w = true
-                   /\ to_hashable true v = Ok k /\ to_hashable true w = Ok k' /\ py_eq k k' = false.
-Proof. exact eq_implies_key_eq_refuted_counter. Qed.
-Print Assumptions C15_eq_implies_key_eq_refuted_counter.
+(* ---- total_on_supported: a key is returned (sorted() can no longer raise: canonical sort key) - FULL: every
+   well-formed value whose opaque objects may and can use the pickle fallback, pandas included *)
+Theorem C15_total_on_supported : forall fp v,
+  wf v = true -> convertible fp v = true -> exists k, to_hashable fp v = Ok k.
+Proof. exact total_on_supported. Qed.
+Print Assumptions C15_total_on_supported.
 
-(* proved when everything that gets sorted consists of scalars of one comparable class (numbers | str | bytes),
-   no Counter holds a zero count, no pandas values.  py_same compares leaves with Python's == (1 == True == 1.0);
-   py_eq is Python's == on the keys. *)
-Theorem C15_eq_implies_key_eq_partial : forall fp v w k k',
-  wf v = true -> wf w = true -> homogeneous_sortable v = true -> homogeneous_sortable w = true ->
-  no_pandas v = true -> no_pandas w = true -> no_zero_count v = true -> no_zero_count w = true ->
+(* ---- eq_implies_key_eq: equal values of the same type get equal keys (canonicity of the sort by _sort_key:
+   mixed-type / None / tuple / frozenset elements and keys included) - FULL: every pair of well-formed values,
+   pandas Series / DataFrames included *)
+Theorem C15_eq_implies_key_eq : forall fp v w k k',
+  wf v = true -> wf w = true ->
   py_same v w = true -> to_hashable fp v = Ok k -> to_hashable fp w = Ok k' -> py_eq k k' = true.
 Proof. exact eq_implies_key_eq. Qed.
-Print Assumptions C15_eq_implies_key_eq_partial.
+Print Assumptions C15_eq_implies_key_eq.
 
-Example C15_eq_implies_key_eq_nontrivial :   (* {1: [{'b', 'a'}], 2.5: ()} vs {2.5: (), True: [{'a', 'b'}]} *)
-  let v := PDict [(PInt 1, PList [PSet [PStr (s "b"); PStr (s "a")]]); (PFloat 10, PTuple [])] in
-  let w := PDict [(PFloat 10, PTuple []); (PBool true, PList [PSet [PStr (s "a"); PStr (s "b")]])] in
-  wf v = true /\ wf w = true /\ homogeneous_sortable v = true /\ homogeneous_sortable w = true
-  /\ no_pandas v = true /\ no_pandas w = true /\ no_zero_count v = true /\ no_zero_count w = true
-  /\ py_same v w = true /\ v <> w.
-Proof. repeat split; try (vm_compute; reflexivity). discriminate. Qed.
-
-(* ---- total_on_supported: a key is returned.
-   Full statement:  forall fp v, supported v = true -> convertible fp v = true -> exists k, to_hashable fp v = Ok k.
-   FALSE: sorted() raises TypeError on mutually incomparable set elements / dict keys
-   (known finding sorted-typeerror-incomparable-keys): *)
-Theorem C15_total_on_supported_refuted :
-  exists v, supported v = true /\ convertible true v = true /\ to_hashable true v = Err TypeError.
-Proof. exact total_refuted. Qed.
-Print Assumptions C15_total_on_supported_refuted.
-
-Theorem C15_total_on_supported_partial : forall fp v,
-  wf v = true -> homogeneous_sortable v = true -> no_pandas v = true -> convertible fp v = true ->
-  exists k, to_hashable fp v = Ok k.
-Proof. exact total_on_supported. Qed.
-Print Assumptions C15_total_on_supported_partial.
+Example C15_eq_implies_key_eq_nontrivial :
+  (* {1: [{'b', None, 2}], frozenset({1}): Counter(a=0, b=2), 2.5: ()}  vs
+     {2.5: (), True: [{2.0, 'b', None}], frozenset({True}): Counter(b=2)}  *)
+  let v := PDict [(PInt 1, PList [PSet [PStr (s "b"); PNone; PInt 2]]);
+                  (PFrozenset [PInt 1], PCounter [(PStr (s "a"), PInt 0); (PStr (s "b"), PInt 2)]);
+                  (PFloat 10, PTuple [])] in
+  let w := PDict [(PFloat 10, PTuple []); (PBool true, PList [PSet [PFloat 8; PStr (s "b"); PNone]]);
+                  (PFrozenset [PBool true], PCounter [(PStr (s "b"), PInt 2)])] in
+  wf v = true /\ wf w = true /\ py_same v w = true /\ v <> w
+  /\ exists k k', to_hashable true v = Ok k /\ to_hashable true w = Ok k' /\ py_eq k k' = true.
+Proof.
+  repeat split; try (vm_compute; reflexivity); try discriminate.
+  do 2 eexists. repeat split; vm_compute; reflexivity.
+Qed.
 
 (* ---- key_eq_implies_eq (injectivity): equal keys only for equal values of the same type.
-   FALSE for pandas Series / DataFrames (known finding pandas-key-loses-index-dtype-order): *)
+   Full statement = the same without `no_pandas`; it is FALSE for pandas Series / DataFrames
+   (the remaining known finding pandas-key-loses-index-dtype-order; the key layout is pinned by the test-suite): *)
 Theorem C15_key_eq_implies_eq_refuted_series :
   exists v w k k', supported v = true /\ supported w = true /\ py_same v w = false
                    /\ to_hashable true v = Ok k /\ to_hashable true w = Ok k' /\ py_eq k k' = true.
@@ -87,8 +65,6 @@ Theorem C15_key_eq_implies_eq_refuted_frame :
 Proof. exact key_eq_implies_eq_refuted_frame. Qed.
 Print Assumptions C15_key_eq_implies_eq_refuted_frame.
 
-(* proved for all supported values without pandas (masked arrays, opaque objects, mixed/unsortable containers
-   included - whenever both keys exist).  Full statement = the same without `no_pandas`. *)
 Theorem C15_key_eq_implies_eq_partial : forall fp v w k k',
   supported v = true -> supported w = true -> no_pandas v = true -> no_pandas w = true ->
   to_hashable fp v = Ok k -> to_hashable fp w = Ok k' -> py_eq k k' = true -> py_same v w = true.
@@ -103,9 +79,7 @@ Example C15_key_eq_implies_eq_nontrivial :   (* [1, 2] vs (1, [2]): both support
 Proof. repeat split; try (vm_compute; reflexivity). do 2 eexists. repeat split; vm_compute; reflexivity. Qed.
 
 (* ---- the executable statement itself (Corr/Run_C15.spec_ok, the oracle that judges the implementation's
-   observations on every run) holds of the model's observation:
-   pairs - for values inside all guards (pair_guard = supported, homogeneous_sortable, no_pandas, no_zero_count,
-   unmasked); the unguarded form is refuted by the witnesses above. *)
+   observations on every run) holds of the model's observation.  pair_guard v = supported v && no_pandas v. *)
 Theorem C15_spec_ok_pair_partial : forall fp v w,
   pair_guard v = true -> pair_guard w = true -> spec_ok (CPair fp v w) (run (CPair fp v w)) = true.
 Proof. exact spec_ok_pair. Qed.
@@ -113,14 +87,33 @@ Print Assumptions C15_spec_ok_pair_partial.
 
 (* memoize (default SimpleCache; key = to_hashable of the pair (args, kwargs)): a stored result is returned only for
    a call whose (args, kwargs) equals (py_same) the (args, kwargs) of the call that produced it - for all call
-   sequences whose call values are supported and pandas-free (calls that raise are allowed by the statement; they
-   are the subject of the pair theorems).  In particular f(3, y=2) and f(3, ('y', 2)) never share a result. *)
+   sequences whose call values are supported and pandas-free.  In particular f(3, y=2) and f(3, ('y', 2)) never
+   share a result. *)
 Theorem C15_memoize_sound_partial : forall args,
   (forall a, In a args -> supported a = true /\ no_pandas a = true) ->
   spec_ok (CMemo args) (run (CMemo args)) = true.
 Proof. exact spec_ok_memo. Qed.
 Print Assumptions C15_memoize_sound_partial.
 
+(* re-keying after an in-place modification: the key of the mutated object equals the key of an independently built
+   equal value (the model has no memory of identity or earlier contents) and equals the earlier key exactly when the
+   value is unchanged *)
+Theorem C15_rekey_partial : forall v w,
+  pair_guard v = true -> pair_guard w = true -> spec_ok (CRekey v w) (run (CRekey v w)) = true.
+Proof. exact spec_ok_rekey. Qed.
+Print Assumptions C15_rekey_partial.
+
+(* DiskCache file names: the model's _pickle_key is a function of the key (sets inside are ordered) - no guard *)
+Theorem C15_pickle_key_stable : forall v, spec_ok (CPickle v) (run (CPickle v)) = true.
+Proof. exact spec_ok_pickle. Qed.
+Print Assumptions C15_pickle_key_stable.
+
+(* capstone: every case kind, outside the pandas region *)
+Theorem C15_spec_ok_partial : forall c, case_guard c = true -> spec_ok c (run c) = true.
+Proof. exact spec_ok_all. Qed.
+Print Assumptions C15_spec_ok_partial.
+
 Example C15_spec_ok_nontrivial :
-  pair_guard (PDict [(PInt 1, PList [PSet [PStr (s "b"); PStr (s "a")]]); (PFloat 10, PTuple [])]) = true.
+  case_guard (CRekey (PDict [(PInt 1, PList [PSet [PStr (s "b"); PNone]]); (PFloat 10, PTuple [])])
+                     (PDict [(PInt 1, PList [PSet [PStr (s "b")]]); (PFloat 10, PTuple [])])) = true.
 Proof. vm_compute. reflexivity. Qed.
